@@ -161,16 +161,17 @@ def compare_contacts(mt, C, X, i):
 
 
 def efc_features(J_, pos, margin, fl, D):
-    return [np.concatenate([np.asarray(J_[k], float).reshape(-1), [pos[k], margin[k], fl[k], D[k]]]) for k in range(len(pos))]
+    """row features used for matching: Jacobian, pos-margin (what enters aref), frictionloss, D"""
+    return [np.concatenate([np.asarray(J_[k], float).reshape(-1), [pos[k] - margin[k], fl[k], D[k]]]) for k in range(len(pos))]
 
 
 def efc_tol(loose):
     rt, at = (RTOL_ITER, ATOL_ITER) if loose else (RTOL, ATOL)
 
     def fn(a, b):
-        nv = a.size - 4
+        nv = a.size - 3
         e = nerr(a[:nv], b[:nv], rt, at)
-        for k in range(nv, nv + 4):
+        for k in range(nv, nv + 3):
             e = max(e, nerr(a[k], b[k], rt, at))
         return e
     return fn
@@ -180,6 +181,9 @@ K_SENSOR_ACC = "forward() returns before sensor_acc when the model has no constr
 K_JDOTV = "connect/weld rows: efc_aref lacks the Jdot*v correction that the C engine's mj_referenceConstraint subtracts"
 K_FORCERANGE = "implicitfast: deriv_smooth_vel keeps the velocity derivative of an actuator whose force is clamped by forcerange (C skips it)"
 K_TENARM = "tendon armature over dofs that are not ancestor-related: C drops the cross terms of M (C06 finding), MJX keeps them"
+K_ELLMARGIN = "elliptic cone: efc_pos / efc_margin of the friction rows carry the contact margin (C engine: 0 on friction rows)"
+K_ACTEARLY = "actuator actearly is ignored by fwd_actuation (accepted by put_model, C uses the next activation)"
+K_NOSLIP = "option noslip_iterations is ignored (accepted by put_model, C runs the noslip post-solver)"
 K_PASSIVE = "passive(): spring OR damper disabled zeroes every passive force (the C engine only skips them when both are disabled)"
 K_XTREE = ("implicitfast: velocity derivatives of tendon dampers/actuators that couple dofs which are not ancestor-related are dropped "
            "by the C engine's sparse qDeriv but kept by MJX")
@@ -256,13 +260,20 @@ def compare_state(J, item, mt, C, X, i, st, xtype_static, part, stats):
         if uc or ux:
             tc = sorted(set(int(C["efc_type"][cact[k]]) for k in uc))
             tx = sorted(set(int(xtype_static[xi[k]]) for k in ux))
-            put("efc", "efc rows (J,pos,margin,frictionloss,D) unmatched: C types %s, MJX types %s" % (tc, tx), float("inf"))
+            put("efc", "efc rows (J,pos-margin,frictionloss,D) unmatched: C types %s, MJX types %s" % (tc, tx), float("inf"))
         else:
             # reference acceleration of matched rows
             rt, at = (RTOL_ITER, ATOL_ITER) if iterative else (RTOL, ATOL)
             moving = bool(np.any(np.asarray(st["qvel"]) != 0))
             for a_, b_ in pairs:
                 k = cact[a_]
+                for f in ("efc_pos", "efc_margin"):
+                    e = chk(f, X[f][i][xi[b_]], C[f][k], rt, at)
+                    if e > 1:
+                        if int(C["efc_type"][k]) == 7 and C["efc_margin"][k] == 0 and C["efc_pos"][k] == 0:
+                            info.setdefault("soft", []).append((f, e, K_ELLMARGIN))   # reported, does not mask later stages
+                        else:
+                            put("efc", "%s (type %d)" % (f, int(C["efc_type"][k])), e)
                 e = chk("efc_aref", X["efc_aref"][i][xi[b_]], C["efc_aref"][k], rt, at)
                 if e > 1:
                     key = None
@@ -414,8 +425,14 @@ def check_model(J, lib, part, item, cap):
             if s_ in div:
                 first = s_
                 break
+        for fld, e, key in info.get("soft", []):
+            part.violation(key, "MJX %s != C engine (normalised err %.3g) in model %s state %d" % (fld, e, item["name"], i), dict(rp, field=fld))
         if first is not None:
             for fld, e, key in div[first]:
+                if key is None and first == "act" and np.any(np.array(mt.actuator_actearly)):
+                    key = K_ACTEARLY
+                if key is None and first in ("solve", "next") and int(mt.opt.noslip_iterations) > 0:
+                    key = K_NOSLIP
                 part.violation(key or "%s differs @ %s" % (fld, fam),
                                "MJX %s != C engine (normalised err %.3g, tolerance 1) in model %s state %d [stage %s]"
                                % (fld, e, item["name"], i, first), dict(rp, field=fld))
